@@ -193,6 +193,25 @@ func (h *held) scribble() []byte {
 	return append([]byte{}, h.s...)
 }
 
+// refill puts another value of the same length into the caller's slice, as a caller does that receives the next
+// message into the buffer the last one arrived in; what surrounds the slice (front, spare capacity) changes as well.
+func (h *held) refill(val []byte) {
+	if len(val) != h.n {
+		panic("harness: held.refill with a value of another length")
+	}
+	h.c.Event("buffers/refilled_with_another_value_after_use", 1)
+	if h.g != nil {
+		copy(h.s, val)
+		copy(h.snap, h.s)
+		return
+	}
+	for i := range h.back {
+		h.back[i] ^= 0x5c
+	}
+	copy(h.back[h.off:], val)
+	copy(h.snap, h.back)
+}
+
 // anyShape draws a shape for an n-byte value. block is the block length of the cipher that will pad the value
 // (16 where there is none): the spare capacities one short of, exactly and one beyond the pad length and around an
 // AEAD tag (16) decide whether an append-style helper inside the library extends the caller's slice in place.
